@@ -644,7 +644,7 @@ func checkLaev2(c s2Case) *vk.Failure {
 	if math.Abs(e1-rt1) > tol || math.Abs(e2-rt2) > tol {
 		return vk.Failf("dlae2-vs-dlaev2", "(%v,%v,%v): Dlae2 (%v,%v) Dlaev2 (%v,%v)", a, b, cc, e1, e2, rt1, rt2)
 	}
-	if math.Abs(cs*cs+sn*sn-1) > 8*eps {
+	if math.Abs(cs*cs+sn*sn-1) > 32*eps {
 		return vk.Failf("rotation-not-unit", "(%v,%v,%v): cs=%v sn=%v", a, b, cc, cs, sn)
 	}
 	// [cs sn; -sn cs] [a b; b c] [cs -sn; sn cs] = diag(rt1, rt2)
